@@ -36,6 +36,8 @@ CONSTANTS Conns,          \* connection identities (each used by one client)
           ScriptNames,    \* the client behaviours to choose from (see Script)
           ReadTimeout,    \* BOOLEAN: plain_read_timeout > 0
           MaxFaults, MaxListenFail, MaxUFaults, MaxDgram,
+          TcpOn, UdpOn,   \* BOOLEAN: model the TCP side / the UDP side (the two only share shutdown and the wait group,
+                          \* so the exhaustive configs look at one side at a time plus small combined ones)
           Protocol, Dev
 
 Script(name) ==
@@ -82,10 +84,12 @@ Init ==
     /\ hpc = [c \in Conns |-> "none"] /\ n = [c \in Conns |-> 0] /\ lo = [c \in Conns |-> 1]
     /\ out = [c \in Conns |-> <<>>] /\ term = [c \in Conns |-> "none"]
     /\ cclosed = [c \in Conns |-> FALSE] /\ wpc = [c \in Conns |-> "none"]
-    /\ apc = "accept" /\ acur = NoConn /\ lgen = 0 /\ lopen = TRUE /\ faults = 0 /\ lfails = 0 /\ tclpc = "wait"
-    /\ upc = "read" /\ ugen = 0 /\ uopen = TRUE /\ ufaults = 0 /\ dq = <<>> /\ usent = 0 /\ ud = 0 /\ uout = <<>>
-    /\ uclpc = "wait"
-    /\ shutdown = FALSE /\ spc = "idle" /\ wg = 2        \* Start: wg.Add(2); go run(tcp); go run(udp)
+    /\ apc = (IF TcpOn THEN "accept" ELSE "done") /\ lopen = TcpOn /\ tclpc = (IF TcpOn THEN "wait" ELSE "done")
+    /\ acur = NoConn /\ lgen = 0 /\ faults = 0 /\ lfails = 0
+    /\ upc = (IF UdpOn THEN "read" ELSE "done") /\ uopen = UdpOn /\ uclpc = (IF UdpOn THEN "wait" ELSE "done")
+    /\ ugen = 0 /\ ufaults = 0 /\ dq = <<>> /\ usent = 0 /\ ud = 0 /\ uout = <<>>
+    /\ shutdown = FALSE /\ spc = "idle"
+    /\ wg = (IF TcpOn THEN 1 ELSE 0) + (IF UdpOn THEN 1 ELSE 0)       \* Start: wg.Add(2); go run(tcp); go run(udp)
     /\ rxAtStop = [c \in Conns |-> 0] /\ late = FALSE /\ badTimeout = FALSE
 
 ------------------------------------------------------------------------------
@@ -199,13 +203,14 @@ HClose(c) ==
     /\ hpc[c] = "close" /\ hpc' = [hpc EXCEPT ![c] = "done"]
     /\ cclosed' = [cclosed EXCEPT ![c] = TRUE]
     /\ wg' = IF Dev = "serial_handler" THEN wg ELSE wg - 1
-    /\ UNCHANGED <<script, cvars, link, n, lo, out, term, wpc, avars, tclpc, uvars, uclpc, svars, late, badTimeout>>
+    /\ wpc' = [wpc EXCEPT ![c] = "done"]                 \* connClose is closed: the watcher goroutine ends
+    /\ UNCHANGED <<script, cvars, link, n, lo, out, term, avars, tclpc, uvars, uclpc, svars, late, badTimeout>>
 Handler(c) == HStart(c) \/ HRead(c) \/ HTimeout(c) \/ HScan(c) \/ HFlush(c) \/ HClose(c)
 
 Watcher(c) ==
-    /\ wpc[c] = "wait" /\ (shutdown \/ hpc[c] = "done")
+    /\ wpc[c] = "wait" /\ shutdown
     /\ wpc' = [wpc EXCEPT ![c] = "done"]
-    /\ cclosed' = [cclosed EXCEPT ![c] = TRUE]        \* after the handler's own Close this is a no-op
+    /\ cclosed' = [cclosed EXCEPT ![c] = TRUE]
     /\ UNCHANGED <<script, cvars, link, hvars, avars, tclpc, uvars, uclpc, svars, wg, late, badTimeout>>
 
 \* ---- UDP
@@ -269,9 +274,11 @@ P2_Refuse == spc = "returned" => ~lopen /\ ~uopen
 \* (3) a read timeout strikes only a connection on which nothing arrived since the Read was issued
 P3_TimeoutOnlyIdle == ~badTimeout /\ (\A c \in Conns : term[c] = "timeout" => ReadTimeout)
 \* (4) the accept / read loops end only because of shutdown
-P4_NoExit == (apc \in {"exit", "done"} \/ upc \in {"exit", "done"}) => shutdown
+P4_NoExit == ((TcpOn /\ apc \in {"exit", "done"}) \/ (UdpOn /\ upc \in {"exit", "done"})) => shutdown
 \* UDP: each datagram handled at most once, in arrival order
 P_Udp == StrictlyIncreasing(uout) /\ \A i \in 1..Len(uout) : uout[i] <= usent
+
+ConnSym == Permutations(Conns)
 
 TypeOK == /\ wg \in 0..(2 + Cardinality(Conns)) /\ lgen \in 0..MaxFaults /\ ugen \in 0..MaxUFaults
           /\ \A c \in Conns : n[c] <= SentLen(c) /\ lo[c] <= n[c] + 1
